@@ -3130,6 +3130,10 @@ parsec_insert_dtd_task(parsec_task_t *__this_task)
 
         /* Unlocking the last_user of the tile */
         parsec_dtd_last_user_unlock(&(tile->last_user));
+#if defined(PARSEC_VERIF)
+        /* between publishing this task as last user and linking it as the descendant of the previous one */
+        PARSEC_VERIF_YIELD(PARSEC_VERIF_SITE_DTD);
+#endif
 
         /* TASK_IS_ALIVE indicates we have a parent */
         if( TASK_IS_ALIVE == last_user.alive ) {
